@@ -145,7 +145,8 @@ func (m *ipModel) failure(iv ival) {
 	m.totalMax++
 	m.totalMin++
 	old := m.ban
-	risk := m.expiredQueried
+	// the async unban spawned by an earlier query may still be pending, however many records were written since
+	risk := m.expiredQueried || (old != nil && old.asyncRisk)
 	switch {
 	case m.totalMax >= m.cfg.P:
 		nb := &banRec{perm: true, set: iv, auto: true, permCertain: m.totalMin >= m.cfg.P, asyncRisk: risk}
@@ -216,7 +217,7 @@ func (m *ipModel) manualBan(iv ival, dur time.Duration) {
 		return
 	}
 	old := m.ban
-	nb := &banRec{perm: dur == 0, set: iv, dur: dur, asyncRisk: m.expiredQueried}
+	nb := &banRec{perm: dur == 0, set: iv, dur: dur, asyncRisk: m.expiredQueried || (old != nil && old.asyncRisk)}
 	if old != nil && !nb.perm {
 		if old.perm {
 			nb.dontCareAfter = true
@@ -333,7 +334,8 @@ func (e *listEntry) live(iv ival) tri {
 }
 
 func (m *ipmModel) addBlack(key string, iv ival, dur time.Duration) {
-	m.black[key] = &listEntry{set: iv, dur: dur, expiredQueried: m.expiredSeen[key]}
+	old := m.black[key]
+	m.black[key] = &listEntry{set: iv, dur: dur, expiredQueried: m.expiredSeen[key] || (old != nil && old.expiredQueried)}
 	delete(m.expiredSeen, key)
 }
 func (m *ipmModel) removeBlack(key string) { delete(m.black, key); delete(m.expiredSeen, key) }
